@@ -34,7 +34,7 @@ def sub_array(seed, kind, lv, b, shape, nc):
     return _rng(seed, kind, lv, b).uniform(-10.0, 10.0, tuple(shape) + (nc,))
 
 
-def write_checkpoint(path, mesh, layouts, cfg, ns=2, nghost=2, time=1.6457727058794072e-11, step=5):
+def write_checkpoint(path, mesh, layouts, cfg, ns=2, nghost=2, time=1.6457727058794072e-11, step=5, int_line=None):
     """
     mesh: {"dom":[nx,ny,nz], "levels":[[{"lo","hi"},..],..]}
     layouts[lv] = {"state": {"file":[..],"disk":{..}}, "gradp": .., "ir": ..}
@@ -47,6 +47,8 @@ def write_checkpoint(path, mesh, layouts, cfg, ns=2, nghost=2, time=1.6457727058
     with open(os.path.join(path, "Header"), "w") as h:
         h.write("Checkpoint version: 1\n")
         h.write("%d\n%d\n" % (nlev - 1, step))
+        if int_line is not None:
+            h.write("%d\n" % int_line)          # the layout with an integer line in front of the time
         h.write("%r\n" % time)
         h.write("3.946824488833992e-12\n3.5880222625763559e-12\n")
         h.write(" ".join(repr(float(v)) for v in lo) + " \n")
